@@ -4,7 +4,7 @@
 use std::{env, fs, thread};
 //#![feature(getpid)]
 //use std::process;
-use std::io::{BufRead, BufReader};
+use std::io::{BufRead, BufReader, Read};
 use std::mem;
 use std::net::{TcpListener, TcpStream};
 #[cfg(unix)]
@@ -578,14 +578,20 @@ pub fn listen<S: ?Sized + AsRef<str>, H: crate::ConnectionHandler + Send + Sync 
             let (r, mut w) = stream.split().unwrap();
             let mut br = BufReader::new(r);
             let mut iface: Option<String> = None;
+            let mut unread: Vec<u8> = Vec::new();
             loop {
-                match handler.handle(&mut br, &mut w, iface.clone()) {
-                    Ok((_, i)) => {
+                let mut chained = unread.as_slice().chain(&mut br);
+                match handler.handle(&mut chained, &mut w, iface.clone()) {
+                    Ok((rest, i)) => {
+                        // bytes read ahead of an upgrade belong to the upgraded handler
+                        unread = if i.is_some() { rest } else { Vec::new() };
                         iface = i;
-                        match br.fill_buf() {
-                            Err(_) => break,
-                            Ok([]) => break,
-                            _ => {}
+                        if unread.is_empty() {
+                            match br.fill_buf() {
+                                Err(_) => break,
+                                Ok([]) => break,
+                                _ => {}
+                            }
                         }
                     }
                     Err(err) => {
